@@ -271,6 +271,14 @@ fn main() {
                 em.case(case, &res, nt);
             }
         }
+        "c13redo" => {
+            for case in from..to {
+                prog(case, "c13redo");
+                let res = routes::c13_redo_case(seed, case);
+                let nt = res.feat("reproduced_existing_block") >= 1;
+                em.case(case, &res, nt);
+            }
+        }
         "c14mesh" => {
             for case in from..to {
                 prog(case, "c14mesh");
